@@ -35,7 +35,7 @@ COMPONENTS = {
     "real": ["eolib.protocol.protocol_enum_meta.ProtocolEnumMeta", "generated enum modules (real generator run per tree)", "enum.IntEnum of the interpreter"],
     "stub_or_harness": ["construction-history generator", "registry snapshot oracle"],
 }
-PROBES = ["in_flow_read_then_write", "declared", "unknown", "unknown_repeated", "instance_passed_back", "negative", "huge", "none_member",
+PROBES = ["warnings_as_errors", "in_flow_read_then_write", "declared", "unknown", "unknown_repeated", "instance_passed_back", "negative", "huge", "none_member",
           "boundary_252_253", "unknown_then_declared_same_class"]
 FAULT_KINDS = ["unknown_ordinal"]
 SHRINK_KEYS = ["ops"]
@@ -126,7 +126,7 @@ def generate(streams, tier):
         ops.insert(prng.randrange(len(ops) + 1),
                    [prng.randrange(64), "carrier", [prng.choice(["d", "d", "n", "s", "r"]) for _ in range(prng.randrange(1, 8))],
                     prng.randrange(1 << 30)])
-    return {"tree": tree, "ops": ops}
+    return {"tree": tree, "ops": ops, "warnings_as_errors": prng.random() < 0.3}
 
 
 def add_carriers(tree):
@@ -139,7 +139,10 @@ def add_carriers(tree):
         for i, name in enumerate(names):
             if name in ("PacketFamily", "PacketAction") and False:
                 continue
+            first = re.search(r'<enum name="%s"[^>]*>.*?<value name="([A-Za-z0-9_]+)"' % name, tree[rel], re.S).group(1)
             extra.append(f'    <struct name="{name}Carrier">\n        <field name="single" type="{name}"/>\n'
+                         f'        <switch field="single">\n            <case value="{first}">\n'
+                         f'                <field name="detail" type="char"/>\n            </case>\n        </switch>\n'
                          f'        <array name="few" type="{name}" length="2"/>\n        <array name="rest" type="{name}"/>\n    </struct>')
         if extra:
             out[rel] = tree[rel].replace("</protocol>", "\n".join(extra) + "\n</protocol>")
@@ -163,6 +166,20 @@ def _value_class(n, declared):
 
 
 def execute(plan, env):
+    import warnings
+    with warnings.catch_warnings():
+        if plan.get("warnings_as_errors"):
+            # a deployment that runs with -W error: a warning on this path is a failure of the construction
+            warnings.simplefilter("error")
+            warnings.simplefilter("default", DeprecationWarning)
+            warnings.simplefilter("default", PendingDeprecationWarning)
+        res = _execute(plan, env)
+        if plan.get("warnings_as_errors"):
+            res.count("probe.warnings_as_errors")
+        return res
+
+
+def _execute(plan, env):
     res = Result()
     res.evaluations = 0
     tr = Trace(keep=env.keep_trace)
@@ -331,8 +348,11 @@ def run_carrier(te, cls, declared, op, res, tr, step):
         values.append(values[-1])
     w = te.EoWriter()
     add = getattr(w, "add_" + ed.underlying)
-    for v in values:
+    first_ordinal = ed.values[0][1]
+    for i, v in enumerate(values):
         add(v)
+        if i == 0 and v == first_ordinal:
+            w.add_char(7)           # the case data of the switch on `single`
     data = bytes(w.to_bytearray())
     carrier = te.bridge.cls(ename + "Carrier")
     res.evaluations += 1
